@@ -17,17 +17,25 @@ int main()
     const CScript spk = GetScriptForRawPubKey(S.coinbaseKey.GetPubKey());
     H.advance(10);
     // one confirmed fan-out transaction provides the coins of all later transactions
+    // a confirmed fan-out transaction provides the coins of the transactions of the cases; when it runs low (checked between
+    // cases, when the mempool is empty) the next mature coinbase is fanned out the same way
     const int FAN = 1500;
     CTransactionRef fan;
-    {
+    int fan_height = 0;
+    int next_out = 0;
+    size_t next_coinbase = 0;
+    auto refill = [&]() {
+        const size_t k = next_coinbase++;
         std::vector<CTxOut> outs(FAN, CTxOut(CAmount(3000000), spk));
-        CMutableTransaction m = S.CreateValidMempoolTransaction({S.m_coinbase_txns.at(0)}, {COutPoint(S.m_coinbase_txns.at(0)->GetHash(), 0)}, 1, {S.coinbaseKey}, outs, /*submit=*/false);
+        CMutableTransaction m = S.CreateValidMempoolTransaction({S.m_coinbase_txns.at(k)}, {COutPoint(S.m_coinbase_txns.at(k)->GetHash(), 0)}, (int)k + 1, {S.coinbaseKey}, outs, /*submit=*/false);
         fan = MakeTransactionRef(m);
+        H.advance(1);
         S.CreateAndProcessBlock({m}, spk);
         H.sync();
-    }
-    const int fan_height = WITH_LOCK(cs_main, return S.m_node.chainman->ActiveChain().Height());
-    int next_out = 0;
+        fan_height = WITH_LOCK(cs_main, return S.m_node.chainman->ActiveChain().Height());
+        next_out = 0;
+    };
+    refill();
     return vd::main_loop([&](const std::vector<std::string>& w, const std::string&) -> std::string {
         // reset: no peers, empty mempool
         H.drop_peers();
@@ -39,6 +47,7 @@ int main()
             H.sync();
         }
         if (S.m_node.mempool->size() > 0) return "BADSTATE mempool not empty";
+        if (next_out > FAN - 100) refill();
         for (const auto& e : H.peerman->GetPrivateBroadcastInfo()) H.peerman->AbortPrivateBroadcast(e.tx->GetHash().ToUint256());
         std::map<int, CTransactionRef> txs;
         std::map<uint256, int> tx_of;
